@@ -331,18 +331,23 @@ class FreeEnergy(InterpolatableFunction):
             "rtol": rTol,
             "atol": tolAbsolute,
             "max_step": dT,
-            "first_step": phaseTracerFirstStep,
         }
 
         # iterating over up and down integration directions
         endpoints = [TMax, TMin]
         for direction in [0, 1]:
             TEnd = endpoints[direction]
+            firstStep = None
+            if phaseTracerFirstStep is not None and TEnd != T0:
+                # given in units of the maximal step size dT, and must not
+                # exceed the integration range
+                firstStep = min(phaseTracerFirstStep * dT, abs(TEnd - T0))
             ode = scipyint.RK45(
                 odeFunction,
                 T0,
                 phase0,
                 TEnd,
+                first_step=firstStep,
                 **scipyKwargs,
             )
             while ode.status == "running":
